@@ -51,6 +51,25 @@ type transCfg struct {
 	params  []pspec           // nil: derived from the signature
 	externs map[string]extern // by source text of the called expression
 	results []string          // nil: from the signature
+	// checked: the Go panic sites of the body (index / slice out of range,
+	// division by zero, short buffer of a binary.* read) are results: the
+	// definition has type option R and yields None where Go would panic.
+	// Without it a panic site evaluates to the opaque go_junk value.
+	checked bool
+	// calls: a method call (by the source text of the called expression, e.g.
+	// "s.s.CheckHex") that is the translated function "<dir>|<recv>|<name>".
+	// Parameters of the callee that are fields of its receiver are read from
+	// the same fields of the caller's receiver expression.
+	calls map[string]string
+	// slice: translate a prefix of the body only.  skip lists statements (exact
+	// normalised source text) that are left out; they may only declare
+	// variables the translated part never reads.  The definition yields the
+	// value of variable sliceVar once it has been declared; the statements
+	// after that must not assign it, and the function's final return must
+	// return it at position sliceRes.
+	skip     []string
+	sliceVar string
+	sliceRes int
 }
 
 // ---------------------------------------------------------------- types
@@ -156,6 +175,7 @@ type libFn struct {
 	res      string   // Go type or tuple
 	errKind  string   // error constructors: GoErr kind, first argument = message template
 	annotate bool
+	minLen   int // the (only) argument must have at least this many bytes, else Go panics
 }
 
 // by import path + "." + name
@@ -185,16 +205,16 @@ var libFuncs = map[string]libFn{
 
 	"time.Unix": {coq: "time_Unix", args: []string{"int64", "int64"}, res: tTime},
 
-	"fmt.Errorf":                         {errKind: "fmt.Errorf"},
-	"errors.New":                         {errKind: "errors.New"},
-	"shanhu.io/g/errcode.Unauthorizedf":  {errKind: "Unauthorized"},
-	"shanhu.io/g/errcode.Internalf":      {errKind: "Internal"},
-	"shanhu.io/g/errcode.InvalidArgf":    {errKind: "InvalidArg"},
-	"shanhu.io/g/errcode.NotFoundf":      {errKind: "NotFound"},
-	"shanhu.io/g/errcode.Forbiddenf":     {errKind: "Forbidden"},
-	"shanhu.io/g/errcode.TimeOutf":       {errKind: "TimeOut"},
-	"shanhu.io/g/errcode.Annotate":       {annotate: true},
-	"shanhu.io/g/errcode.Annotatef":      {annotate: true},
+	"fmt.Errorf":                        {errKind: "fmt.Errorf"},
+	"errors.New":                        {errKind: "errors.New"},
+	"shanhu.io/g/errcode.Unauthorizedf": {errKind: "Unauthorized"},
+	"shanhu.io/g/errcode.Internalf":     {errKind: "Internal"},
+	"shanhu.io/g/errcode.InvalidArgf":   {errKind: "InvalidArg"},
+	"shanhu.io/g/errcode.NotFoundf":     {errKind: "NotFound"},
+	"shanhu.io/g/errcode.Forbiddenf":    {errKind: "Forbidden"},
+	"shanhu.io/g/errcode.TimeOutf":      {errKind: "TimeOut"},
+	"shanhu.io/g/errcode.Annotate":      {annotate: true},
+	"shanhu.io/g/errcode.Annotatef":     {annotate: true},
 }
 
 // methods by receiver Go type + "." + name
@@ -210,9 +230,9 @@ var libMethods = map[string]libFn{
 
 // chained selectors that denote library functions: source text -> entry
 var libChains = map[string]libFn{
-	"encoding/binary.LittleEndian.Uint64":        {coq: "binary_LE_Uint64", args: []string{tBytes}, res: "uint64"},
-	"encoding/binary.LittleEndian.Uint32":        {coq: "binary_LE_Uint32", args: []string{tBytes}, res: "uint32"},
-	"encoding/binary.LittleEndian.Uint16":        {coq: "binary_LE_Uint16", args: []string{tBytes}, res: "uint16"},
+	"encoding/binary.LittleEndian.Uint64":           {coq: "binary_LE_Uint64", args: []string{tBytes}, res: "uint64", minLen: 8},
+	"encoding/binary.LittleEndian.Uint32":           {coq: "binary_LE_Uint32", args: []string{tBytes}, res: "uint32", minLen: 4},
+	"encoding/binary.LittleEndian.Uint16":           {coq: "binary_LE_Uint16", args: []string{tBytes}, res: "uint16", minLen: 2},
 	"encoding/base64.RawURLEncoding.EncodeToString": {coq: "base64_RawURL_EncodeToString", args: []string{tBytes}, res: tStr},
 	"encoding/base64.RawURLEncoding.DecodeString":   {coq: "base64_RawURL_DecodeString", args: []string{tStr}, res: "([]byte,error)"},
 }
@@ -259,6 +279,9 @@ var coqReserved = map[string]bool{
 
 type funcInfo struct {
 	coq     string
+	psrcs   []string // source expression of each Coq parameter (in the callee)
+	recv    string   // name of the receiver variable
+	sigN    []string // names of the signature's parameters
 	params  []string // Go types of the Coq parameters (after flattening)
 	res     string   // Go type or tuple
 	ok      bool
@@ -332,6 +355,27 @@ type tr struct {
 	bad     []string
 	nloop   int
 	pkgc    map[string]constant.Value
+	guards  []string // checked mode: conditions under which the expressions read so far do not panic
+}
+
+func (t *tr) guard(c string) {
+	if t.cfg.checked {
+		t.guards = append(t.guards, c)
+	}
+}
+
+func (t *tr) takeGuards() []string {
+	g := t.guards
+	t.guards = nil
+	return g
+}
+
+func wrapG(gs []string, code string) string {
+	gs = dedup(gs)
+	if len(gs) == 0 {
+		return code
+	}
+	return "if " + strings.Join(gs, " && ") + "\nthen " + indent(code) + "\nelse None (* panic *)"
 }
 
 func (t *tr) fail(n ast.Node, why string) {
@@ -749,6 +793,7 @@ func (t *tr) expr(e ast.Expr) (string, string) {
 		if (ta != tStr && ta != tBytes) || !isIntT(ti) {
 			t.fail(e, "index expression")
 		}
+		t.guard("(go_index_ok " + a + " " + i + ")")
 		return "(go_index " + a + " " + i + ")", "uint8"
 	case *ast.SliceExpr:
 		a, ta := t.expr(x.X)
@@ -770,6 +815,7 @@ func (t *tr) expr(e ast.Expr) (string, string) {
 			}
 			hi = h
 		}
+		t.guard("(go_slice_ok " + a + " " + lo + " " + hi + ")")
 		return "(go_slice " + a + " " + lo + " " + hi + ")", ta
 	case *ast.CompositeLit:
 		at, ok := x.Type.(*ast.ArrayType)
@@ -875,7 +921,17 @@ func (t *tr) binary(x *ast.BinaryExpr) (string, string) {
 		}
 	}
 	a, ta := t.expr(x.X)
+	g0 := len(t.guards)
 	b, tb := t.expr(x.Y)
+	// the right operand of && / || is only evaluated (and can only panic) when the left one lets it
+	for i := g0; i < len(t.guards); i++ {
+		switch x.Op {
+		case token.LAND:
+			t.guards[i] = "(negb " + a + " || " + t.guards[i] + ")"
+		case token.LOR:
+			t.guards[i] = "(" + a + " || " + t.guards[i] + ")"
+		}
+	}
 	ty := ta
 	if isUntyped(ta) {
 		ty = tb
@@ -947,11 +1003,13 @@ func (t *tr) binary(x *ast.BinaryExpr) (string, string) {
 		if !isIntT(ty) {
 			t.fail(x, "arithmetic on type "+ty)
 		}
+		t.guard("(negb (" + b + " =? 0))")
 		return t.wrap(ty, "(go_quot "+a+" "+b+")"), ty
 	case token.REM:
 		if !isIntT(ty) {
 			t.fail(x, "arithmetic on type "+ty)
 		}
+		t.guard("(negb (" + b + " =? 0))")
 		return "(go_rem " + a + " " + b + ")", ty
 	case token.AND, token.OR, token.XOR:
 		if !isIntT(ty) {
@@ -966,11 +1024,13 @@ func (t *tr) binary(x *ast.BinaryExpr) (string, string) {
 		if !isIntT(ta) || !isIntT(tb) {
 			t.fail(x, "shift")
 		}
+		t.guard("(0 <=? " + b + ")")
 		return t.wrap(ta, "(go_shl "+a+" "+b+")"), ta
 	case token.SHR:
 		if !isIntT(ta) || !isIntT(tb) {
 			t.fail(x, "shift")
 		}
+		t.guard("(0 <=? " + b + ")")
 		return "(go_shr " + a + " " + b + ")", ta
 	}
 	t.fail(x, "binary operator")
@@ -1011,6 +1071,9 @@ func (t *tr) call(c *ast.CallExpr) (string, string) {
 	if ex, ok := t.cfg.externs[fsrc]; ok {
 		t.g.useExtern(ex)
 		return "(" + ex.name + t.args(c, ex.args) + ")", tupleT(ex.res)
+	}
+	if key, ok := t.cfg.calls[fsrc]; ok {
+		return t.methodCall(c, key)
 	}
 	switch f := c.Fun.(type) {
 	case *ast.ParenExpr:
@@ -1102,6 +1165,55 @@ func (t *tr) call(c *ast.CallExpr) (string, string) {
 	return "GoUnknown", "?"
 }
 
+// methodCall: a call of a translated method.  Arguments go to the callee's
+// signature parameters by position; a callee parameter that stands for a
+// field of the callee's receiver ("r.f") is read from the caller's receiver
+// expression ("<recv expr>.f"), which must itself be a parameter of the caller.
+func (t *tr) methodCall(c *ast.CallExpr, key string) (string, string) {
+	parts := strings.SplitN(key, "|", 3)
+	fi := t.g.funcs[filepath.Join(t.g.repo, parts[0])+"|"+parts[1]+"|"+parts[2]]
+	if fi == nil || !fi.ok {
+		t.fail(c, "call of a function that was not translated")
+		return "GoUnknown", "?"
+	}
+	sel, ok := c.Fun.(*ast.SelectorExpr)
+	if !ok {
+		t.fail(c, "method call shape")
+		return "GoUnknown", fi.res
+	}
+	recvSrc := t.p.src(sel.X)
+	if c.Ellipsis.IsValid() || len(c.Args) != len(fi.sigN) {
+		t.fail(c, "method call arity")
+		return "GoUnknown", fi.res
+	}
+	s := "(" + fi.coq
+	for i, ps := range fi.psrcs {
+		found := false
+		for j, n := range fi.sigN {
+			if n == ps {
+				s += " " + t.exprAs(c.Args[j], fi.params[i])
+				found = true
+			}
+		}
+		if found {
+			continue
+		}
+		if fi.recv != "" && strings.HasPrefix(ps, fi.recv+".") {
+			want := recvSrc + strings.TrimPrefix(ps, fi.recv)
+			if p2, ok := t.psrc[want]; ok && normT(p2.typ) == fi.params[i] {
+				s += " " + p2.name
+				continue
+			}
+			if p2, ok := t.pnil[want]; ok && fi.params[i] == tNilness {
+				s += " " + p2.name
+				continue
+			}
+		}
+		t.fail(c, "callee parameter "+ps+" has no counterpart at the call")
+	}
+	return s + ")", fi.res
+}
+
 func (t *tr) libCall(c *ast.CallExpr, lf libFn, recv string) (string, string) {
 	if lf.errKind != "" {
 		if len(c.Args) == 0 {
@@ -1135,7 +1247,11 @@ func (t *tr) libCall(c *ast.CallExpr, lf libFn, recv string) (string, string) {
 	if recv != "" {
 		s += " " + recv
 	}
-	return s + t.args(c, lf.args) + ")", lf.res
+	as := t.args(c, lf.args)
+	if lf.minLen > 0 {
+		t.guard(fmt.Sprintf("(%d <=? go_len%s)", lf.minLen, as))
+	}
+	return s + as + ")", lf.res
 }
 
 // ---------------------------------------------------------------- statements
@@ -1224,10 +1340,14 @@ func (t *tr) assigned(nodes ...ast.Node) []string {
 }
 
 func (t *tr) resCoqType() string {
-	if len(t.res) == 0 {
-		return "unit"
+	r := "unit"
+	if len(t.res) > 0 {
+		r = coqType(tupleT(t.res))
 	}
-	return coqType(tupleT(t.res))
+	if t.cfg.checked && r != "" {
+		return "option (" + strings.TrimSuffix(r, "%type") + ")"
+	}
+	return r
 }
 
 func (t *tr) varTuple(names []string) (string, string) {
@@ -1253,11 +1373,13 @@ func (t *tr) stmts(ss []ast.Stmt, k kont) string {
 	}
 	s, rest := ss[0], ss[1:]
 	restHere := func() string { return t.stmts(rest, k) }
+	t.guards = nil
 	switch x := s.(type) {
 	case *ast.EmptyStmt:
 		return restHere()
 	case *ast.ReturnStmt:
-		return t.ret(x)
+		r := t.ret(x)
+		return wrapG(t.takeGuards(), r)
 	case *ast.BlockStmt:
 		after := t.later(restHere)
 		t.push()
@@ -1334,9 +1456,12 @@ func (t *tr) stmts(ss []ast.Stmt, k kont) string {
 				pre += "let " + c + " := " + val + " in\n"
 			}
 		}
-		return pre + restHere()
+		gs := t.takeGuards()
+		return wrapG(gs, pre+restHere())
 	case *ast.AssignStmt:
-		return t.assign(x) + restHere()
+		pre := t.assign(x)
+		gs := t.takeGuards()
+		return wrapG(gs, pre+restHere())
 	case *ast.IncDecStmt:
 		id, ok := x.X.(*ast.Ident)
 		v := (*lvar)(nil)
@@ -1395,6 +1520,14 @@ func zeroVal(ty string) string {
 }
 
 func (t *tr) ret(x *ast.ReturnStmt) string {
+	r := t.ret0(x)
+	if t.cfg.checked {
+		return "Some " + r
+	}
+	return r
+}
+
+func (t *tr) ret0(x *ast.ReturnStmt) string {
 	if len(t.res) == 0 {
 		if len(x.Results) != 0 {
 			t.fail(x, "return with values")
@@ -1406,7 +1539,7 @@ func (t *tr) ret(x *ast.ReturnStmt) string {
 		if ty != tupleT(t.res) {
 			t.fail(x, "return of type "+ty)
 		}
-		return s
+		return "(" + s + ")"
 	}
 	if len(x.Results) != len(t.res) {
 		t.fail(x, "return (named results are not supported)")
@@ -1417,6 +1550,9 @@ func (t *tr) ret(x *ast.ReturnStmt) string {
 		rs = append(rs, t.exprAs(r, t.res[i]))
 	}
 	if len(rs) == 1 {
+		if strings.Contains(rs[0], " ") && !strings.HasPrefix(rs[0], "(") {
+			return "(" + rs[0] + ")"
+		}
 		return rs[0]
 	}
 	return "(" + strings.Join(rs, ", ") + ")"
@@ -1527,11 +1663,20 @@ func (t *tr) simple(s ast.Stmt) string {
 }
 
 func (t *tr) ifStmt(x *ast.IfStmt, k kont, after func() string) string {
+	s := t.ifStmt1(x, k, after, false)
+	if t.cfg.checked && strings.Contains(s, "(* join *)") && strings.Contains(strings.SplitN(s, "(* join *)", 2)[0], "None (* panic *)") {
+		// a branch of the joined form can panic: sequence the rest after each branch instead
+		return t.ifStmt1(x, k, after, true)
+	}
+	return strings.Replace(s, "(* join *)", "", 1)
+}
+
+func (t *tr) ifStmt1(x *ast.IfStmt, k kont, after func() string, noJoin bool) string {
 	// variables of the enclosing scopes assigned in the branches
 	vs := t.assigned(x.Body, x.Else)
 	r1, b1 := hasJump(x.Body)
 	r2, b2 := hasJump(x.Else)
-	join := len(vs) > 0 && !r1 && !b1 && !r2 && !b2
+	join := len(vs) > 0 && !r1 && !b1 && !r2 && !b2 && !noJoin
 	tup, pat := "", ""
 	if join {
 		tup, pat = t.varTuple(vs)
@@ -1542,7 +1687,9 @@ func (t *tr) ifStmt(x *ast.IfStmt, k kont, after func() string) string {
 	if x.Init != nil {
 		pre = t.simple(x.Init)
 	}
+	gInit := t.takeGuards()
 	cond := t.exprAs(x.Cond, tBool)
+	gCond := t.takeGuards()
 	bk := kont{fall: after, brk: k.brk, cont: k.cont, rty: k.rty}
 	if join {
 		var cts []string
@@ -1573,9 +1720,9 @@ func (t *tr) ifStmt(x *ast.IfStmt, k kont, after func() string) string {
 	ite := "if " + cond + "\nthen " + indent(a) + "\nelse " + indent(b)
 	if join {
 		_ = tup
-		return pre + "let " + pat + " :=\n  " + indent(ite) + " in\n" + after()
+		return wrapG(gInit, pre+wrapG(gCond, "let "+pat+" :=\n  "+indent(ite)+" in (* join *)\n"+after()))
 	}
-	return pre + ite
+	return wrapG(gInit, pre+wrapG(gCond, ite))
 }
 
 func (t *tr) switchStmt(x *ast.SwitchStmt, k kont, after func() string) string {
@@ -1592,6 +1739,7 @@ func (t *tr) switchStmt(x *ast.SwitchStmt, k kont, after func() string) string {
 		tag = t.fresh("tag")
 		pre += "let " + tag + " := " + v + " in\n"
 	}
+	gPre := t.takeGuards()
 	var clauses []*ast.CaseClause
 	var def *ast.CaseClause
 	for _, c := range x.Body.List {
@@ -1629,6 +1777,9 @@ func (t *tr) switchStmt(x *ast.SwitchStmt, k kont, after func() string) string {
 				t.fail(x, "switch on type "+tagT)
 			}
 		}
+		if len(t.takeGuards()) > 0 {
+			t.fail(cc, "case expression that can panic")
+		}
 		t.push()
 		body := t.stmts(cc.Body, bk)
 		t.pop()
@@ -1641,7 +1792,7 @@ func (t *tr) switchStmt(x *ast.SwitchStmt, k kont, after func() string) string {
 	} else {
 		b.WriteString(after())
 	}
-	return b.String()
+	return wrapG(gPre, b.String())
 }
 
 func (t *tr) rangeStmt(x *ast.RangeStmt, k kont, after func() string) string {
@@ -1666,6 +1817,7 @@ func (t *tr) rangeStmt(x *ast.RangeStmt, k kont, after func() string) string {
 		t.fail(x, "range over type "+lt)
 		return "GoUnknown"
 	}
+	gList := t.takeGuards()
 	vs := t.assigned(x.Body)
 	t.nloop++
 	n := t.nloop
@@ -1737,11 +1889,11 @@ func (t *tr) rangeStmt(x *ast.RangeStmt, k kont, after func() string) string {
 	if len(vdecl) > 0 {
 		sig += " " + strings.Join(vdecl, " ")
 	}
-	return "(fix " + loop + " " + sig + " {struct " + l + "} : " + rty + " :=\n" +
-		"   match " + l + " with\n" +
-		"   | [] =>\n       " + indent(indent(indent(done))) + "\n" +
-		"   | " + hd + " :: " + l2 + " =>\n       " + indent(indent(indent(body))) + "\n" +
-		"   end) " + strings.TrimPrefix(recur(true), loop+" ")
+	return wrapG(gList, "(fix "+loop+" "+sig+" {struct "+l+"} : "+rty+" :=\n"+
+		"   match "+l+" with\n"+
+		"   | [] =>\n       "+indent(indent(indent(done)))+"\n"+
+		"   | "+hd+" :: "+l2+" =>\n       "+indent(indent(indent(body)))+"\n"+
+		"   end) "+strings.TrimPrefix(recur(true), loop+" "))
 }
 
 // ---------------------------------------------------------------- functions
@@ -1844,6 +1996,14 @@ func (g *codeGen) translateFunc(p *pkg, dir, recv, name string, cfg transCfg) (s
 			}
 		}
 	}
+	if fd.Recv != nil && len(fd.Recv.List) == 1 && len(fd.Recv.List[0].Names) == 1 {
+		fi.recv = fd.Recv.List[0].Names[0].Name
+	}
+	for _, f := range fd.Type.Params.List {
+		for _, n := range f.Names {
+			fi.sigN = append(fi.sigN, n.Name)
+		}
+	}
 	var sig []string
 	for _, ps := range params {
 		ty := normT(ps.typ)
@@ -1864,6 +2024,7 @@ func (g *codeGen) translateFunc(p *pkg, dir, recv, name string, cfg transCfg) (s
 		}
 		sig = append(sig, "("+cn+" : "+ct+")")
 		fi.params = append(fi.params, ty)
+		fi.psrcs = append(fi.psrcs, ps.src)
 	}
 	// results
 	if cfg.results != nil {
@@ -1885,8 +2046,15 @@ func (g *codeGen) translateFunc(p *pkg, dir, recv, name string, cfg transCfg) (s
 		t.fail(fd.Type.Results, "result type")
 	}
 	t.push()
-	body := t.stmts(fd.Body.List, kont{fall: func() string {
+	stmtList := fd.Body.List
+	if cfg.sliceVar != "" || len(cfg.skip) > 0 {
+		stmtList = t.sliceBody(fd.Body.List)
+	}
+	body := t.stmts(stmtList, kont{fall: func() string {
 		if len(t.res) == 0 {
+			if cfg.checked {
+				return "Some tt"
+			}
 			return "tt"
 		}
 		t.fail(nil, "function may end without return")
@@ -1903,6 +2071,112 @@ func (g *codeGen) translateFunc(p *pkg, dir, recv, name string, cfg transCfg) (s
 		def = fmt.Sprintf("(* %s *)\nDefinition %s : %s :=\n  %s.\n", where, coqName, rct, indent(body))
 	}
 	return def, nil
+}
+
+// sliceBody implements transCfg.skip / sliceVar (see there).
+func (t *tr) sliceBody(all []ast.Stmt) []ast.Stmt {
+	skip := map[string]bool{}
+	for _, s := range t.cfg.skip {
+		skip[strings.Join(strings.Fields(s), " ")] = true
+	}
+	var kept, skipped []ast.Stmt
+	for _, s := range all {
+		if skip[t.p.src(s)] {
+			delete(skip, t.p.src(s))
+			skipped = append(skipped, s)
+			continue
+		}
+		kept = append(kept, s)
+	}
+	for s := range skip {
+		t.fail(nil, "statement to skip not found: "+s)
+	}
+	// what the skipped statements declare or assign must not be read by the kept ones
+	names := map[string]bool{}
+	for _, s := range skipped {
+		ast.Inspect(s, func(n ast.Node) bool {
+			switch x := n.(type) {
+			case *ast.AssignStmt:
+				for _, l := range x.Lhs {
+					if id, ok := l.(*ast.Ident); ok {
+						names[id.Name] = true
+					} else {
+						t.fail(s, "skipped statement assigns through a non-variable")
+					}
+				}
+			case *ast.IncDecStmt, *ast.ReturnStmt, *ast.BranchStmt, *ast.GoStmt, *ast.DeferStmt:
+				t.fail(s, "skipped statement is not a plain declaration")
+			}
+			return true
+		})
+	}
+	if t.cfg.sliceVar == "" {
+		for _, s := range kept {
+			t.noRead(s, names)
+		}
+		return kept
+	}
+	// cut after the declaration of sliceVar
+	cut := -1
+	for i, s := range kept {
+		if as, ok := s.(*ast.AssignStmt); ok && as.Tok == token.DEFINE {
+			for _, l := range as.Lhs {
+				if isIdent(l, t.cfg.sliceVar) {
+					cut = i
+				}
+			}
+		}
+		if cut >= 0 {
+			break
+		}
+	}
+	if cut < 0 {
+		t.fail(nil, "declaration of "+t.cfg.sliceVar+" not found at the top level of the body")
+		return kept
+	}
+	for _, s := range kept[:cut+1] {
+		t.noRead(s, names)
+	}
+	for _, s := range kept[cut+1:] {
+		ast.Inspect(s, func(n ast.Node) bool {
+			switch x := n.(type) {
+			case *ast.AssignStmt:
+				for _, l := range x.Lhs {
+					if isIdent(l, t.cfg.sliceVar) {
+						t.fail(s, t.cfg.sliceVar+" is assigned after the translated part")
+					}
+				}
+			case *ast.IncDecStmt:
+				if isIdent(x.X, t.cfg.sliceVar) {
+					t.fail(s, t.cfg.sliceVar+" is assigned after the translated part")
+				}
+			case *ast.UnaryExpr:
+				if x.Op == token.AND && isIdent(x.X, t.cfg.sliceVar) {
+					t.fail(s, "address of "+t.cfg.sliceVar+" is taken")
+				}
+			case *ast.ReturnStmt:
+				if t.cfg.sliceRes >= len(x.Results) || !isIdent(x.Results[t.cfg.sliceRes], t.cfg.sliceVar) {
+					t.fail(x, fmt.Sprintf("result %d of a return is not %s", t.cfg.sliceRes, t.cfg.sliceVar))
+				}
+			}
+			return true
+		})
+	}
+	last, ok := all[len(all)-1].(*ast.ReturnStmt)
+	if !ok || t.cfg.sliceRes >= len(last.Results) || !isIdent(last.Results[t.cfg.sliceRes], t.cfg.sliceVar) {
+		t.fail(nil, "the body does not end in a return of "+t.cfg.sliceVar)
+	}
+	out := append([]ast.Stmt{}, kept[:cut+1]...)
+	return append(out, &ast.ReturnStmt{Results: []ast.Expr{ast.NewIdent(t.cfg.sliceVar)}})
+}
+
+func (t *tr) noRead(s ast.Stmt, names map[string]bool) {
+	ast.Inspect(s, func(n ast.Node) bool {
+		if id, ok := n.(*ast.Ident); ok && names[id.Name] {
+			t.fail(s, "the translated part mentions "+id.Name+", which a skipped statement sets")
+		}
+		return true
+	})
 }
 
 func dedup(ss []string) []string {
